@@ -380,6 +380,17 @@ class C04(C02):
             ds, de = gen.DELIMS[i % len(gen.DELIMS)]
             for s in gen.g_atoms_random(rng, ds, de, 1, maxlen=30):
                 yield self.mk(s, ds, de, Cfg(targets=()), "junk")
+        # white space other than a blank or a line break directly behind the tag name or behind the name of the condition
+        # attribute: it does not end the name, so the tag is of an unregistered name (or has no condition) and nothing is ready
+        for i in range(quick(tier, 400, 8000)):
+            items = gen.g_ast(rng, depth=rng.choice([1, 2]), p_blank=0.3)
+            d = gen.render(items, gen.Spelling(), final_nl=rng.random() < 0.7)
+            w = ["\t", "\r", "\u3000", "\x0b", "\u00a0"][i % 5]
+            if i % 2 == 0:
+                d = d.replace("<tl ", "<tl" + w).replace("<rm ", "<rm" + w)
+            else:
+                d = d.replace(" to=", " to" + w + "=").replace(" name=", " name" + w + "=").replace(" to =", " to" + w + "=").replace(" name =", " name" + w + "=")
+            yield self.mk(d, "<", ">", proto.DEFAULT_CFG, "odd-blank-in-tag")
         # unwrap-blocks that cannot be unwrapped
         for body in itertools.product(["", "x", "  y"], repeat=1):
             for k in (0, 1):
@@ -859,6 +870,21 @@ class C09(Base):
             a1 = attrs[1].split("=", 1)
             expect = (kind, [(a0[0], a0[1][1:-1])] + exp_attrs + [(a1[0], a1[1][1:-1])])
             yield self.mk(body, "<", ">", expect, "opaque-comment", decision={"tag": kind, "ready": ready})
+        # a quoted value that holds an occurrence of the end delimiter which the tokenizer passes over (it stands behind
+        # a failed partial match, D4): the tag is one token, and the value must come out whole
+        for ds, de, inner in [("<!--", "-->", "--->"), ("/*", "*/", "**/"), ("<!-- <", "> -->", ">> -->"), ("<!--", "-->", "---> --->")]:
+            for kind, ready in [("tl", True), ("tl", False), ("rm", True), ("rm", False)]:
+                for q in ("'", '"'):
+                    for order in (0, 1):
+                        condv = (gen.READY_T if ready else gen.PEND_T) if kind == "tl" else ("a" if ready else "b")
+                        cname = "to" if kind == "tl" else "name"
+                        val = "a" + inner + "b"
+                        attrs = [(cname, condv), ("c", val)]
+                        if order:
+                            attrs.reverse()
+                        pad = " " if ds.endswith("-") or ds.endswith("*") else ""
+                        body = pad + kind + " " + " ".join("%s=%s%s%s" % (n, q, v, q) for n, v in attrs) + pad
+                        yield self.mk(body, ds, de, (kind, [(n, v) for n, v in attrs]), "delimiter-in-value", decision={"tag": kind, "ready": ready})
         for b in gen.MALFORMED_BODIES:
             for ds, de in [("<", ">"), ("[[", "]]")]:
                 yield self.mk(b, ds, de, None, "malformed")
